@@ -794,9 +794,13 @@ fn c10(scn: &Scenario, rf: &Ref, ex: &Exec, out: &mut Vec<Finding>) {
         let reg_after = after.iter().any(|e| e.kind == Kind::WorkerReg && e.a == slot as u64);
         if reg_after && cnt > 0 && scn.src != Src::SliceCloned && scn.src != Src::Range && scn.src != Src::Vec {
             out.push(f("late-worker-works", format!("a worker registered after early exit was published still processed {} elements", cnt)));
-        } else if cnt > c {
+        } else if cnt > 2 * c {
+            // "a constant number of chunks per thread": the pinned library needs one (the chunk in progress, or the
+            // one claimed just before the exit); two are allowed so that a library that claims its next chunk
+            // while it still works on the current one is not reported
             out.push(f("work-after-exit", format!("after early exit was published thread {} let {} more elements enter the pipeline; its chunk size is {}", slot, cnt, c)));
-        } else if cnt > base_chunk.max(claimed_before_reg(slot)) && cnt > 8 {
+        } else if cnt > 4 * base_chunk.max(claimed_before_reg(slot)) && cnt > 8 {
+            // (factor 4: a growth rule may legitimately hand out a multiple of the progress made so far)
             let claimed_before = claimed_before_reg(slot);
             out.push(f(
                 "work-after-exit-scales-with-input",
@@ -918,7 +922,8 @@ fn c11(scn: &Scenario, _rf: &Ref, ex: &Exec, out: &mut Vec<Finding>) {
         let flog = &log[fr.log_begin..fr.log_end.min(log.len())];
         let mut expect = 0u64;
         for e in flog {
-            if e.kind == Kind::Dep && e.stage == crate::sched::DEP_CLAIM && e.slot != 0 {
+            // (the calling thread makes no claim inside a frame unless it takes part in the work as a worker)
+            if e.kind == Kind::Dep && e.stage == crate::sched::DEP_CLAIM {
                 let want = expect_for(fr.info.input_len) as u64;
                 if e.b != c as u64 && e.b != want {
                     out.push(f("claim-size", format!("frame {}: thread {} claimed {} positions in one pull, Exact({})", i, e.slot, e.b, c)));
